@@ -438,10 +438,22 @@ func (w *World) revertsExactly(ra *ssa.Function) (bool, string) {
 			w.inlineEnv = append(w.inlineEnv, env)
 			ok, why := w.revertsExactlyIn(g, g.Params[ti])
 			w.inlineEnv = w.inlineEnv[:len(w.inlineEnv)-1]
+			// the helper only collects the addresses recorded after the target; the caller
+			// deletes exactly what it is handed back
+			if !ok && why == "collected-only" && g.Signature.Results().Len() == 1 {
+				if cv := callValue(c); cv != nil && w.onlyDeletedFrom(ra, cv, "recv.accessedObjAddrs", nil, 0) {
+					return true, ""
+				}
+				why = "the addresses collected by " + w.FName(g) + " are not (only) deleted from the record"
+			}
 			return ok, why
 		}
 	}
-	return w.revertsExactlyIn(ra, target)
+	ok, why := w.revertsExactlyIn(ra, target)
+	if why == "collected-only" {
+		why = "the addresses recorded after the target snapshot are collected but never deleted"
+	}
+	return ok, why
 }
 
 func (w *World) revertsExactlyIn(ra *ssa.Function, target ssa.Value) (bool, string) {
@@ -533,8 +545,12 @@ func (w *World) revertsExactlyIn(ra *ssa.Function, target ssa.Value) (bool, stri
 	if direct || (collected && delAny) {
 		return true, ""
 	}
+	if collected {
+		return false, "collected-only"
+	}
 	return false, "no deletion of the range key (directly or via a collected slice) on the edge where target < mark holds"
 }
+
 
 // finishWriteBack evaluates StateDBWrapper.Finish on its paths (helpers
 // expanded): in every iteration over the recorded addresses the account obtained
